@@ -57,6 +57,8 @@ THEOREMS = [
     "Verif.C12.twlc_distance_published",
     "Verif.C12.coth_guard_error",
     "Verif.C12.efjc_distance_published",
+    "Verif.C12.efjc_distance_strictMono_below_guard",
+    "Verif.C12.twlc_distance_strictMono_below_Fc",
     "Verif.C12.coth_negative_guard_dead",
     "Verif.C12.twlc_force_round_trip",
     "Verif.C12.composite_is_sum",
